@@ -52,8 +52,29 @@ func c07IPBalance(c *Ctx, m *tableModel) {
 		}
 		var found *verdict
 		nPaths := 0
+		type deferred struct{ mc *ssa.MakeClosure }
+		var defers []deferred         // deferred closures registered on the current path (path-local: restored on backtracking)
+		cells := map[ssa.Value]bool{} // last boolean constant stored into a local cell on the current path
+		cellKnown := map[ssa.Value]bool{}
 		var walk func(b *ssa.BasicBlock, path []*ssa.BasicBlock, bal map[string]int, pending map[*ssa.Call]string, onPath map[*ssa.BasicBlock]bool)
 		walk = func(b *ssa.BasicBlock, path []*ssa.BasicBlock, bal map[string]int, pending map[*ssa.Call]string, onPath map[*ssa.BasicBlock]bool) {
+			nDef := len(defers)
+			type saved struct {
+				v        ssa.Value
+				val, had bool
+			}
+			var undo []saved
+			defer func() {
+				defers = defers[:nDef]
+				for i := len(undo) - 1; i >= 0; i-- {
+					if undo[i].had {
+						cells[undo[i].v], cellKnown[undo[i].v] = undo[i].val, true
+					} else {
+						delete(cells, undo[i].v)
+						delete(cellKnown, undo[i].v)
+					}
+				}
+			}()
 			if found != nil || nPaths > 4096 || onPath[b] {
 				return
 			}
@@ -87,6 +108,63 @@ func c07IPBalance(c *Ctx, m *tableModel) {
 							}
 						}
 					}
+				case *ssa.Defer:
+					if mc, ok := x.Call.Value.(*ssa.MakeClosure); ok {
+						defers = append(defers, deferred{mc})
+					}
+				case *ssa.Store:
+					if _, isCell := x.Addr.(*ssa.Alloc); isCell {
+						if cst, isC := x.Val.(*ssa.Const); isC && cst.Value != nil && (cst.Value.String() == "true" || cst.Value.String() == "false") {
+							undo = append(undo, saved{x.Addr, cells[x.Addr], cellKnown[x.Addr]})
+							cells[x.Addr], cellKnown[x.Addr] = cst.Value.String() == "true", true
+						}
+					}
+				case *ssa.RunDefers:
+					// clean-up registered with defer: a removal in a deferred closure counts when
+					// the closure's guard (a test of a captured result cell) holds for the value the
+					// cell has at this exit
+					for i := len(defers) - 1; i >= 0; i-- {
+						mc := defers[i].mc
+						cf, _ := mc.Fn.(*ssa.Function)
+						if cf == nil {
+							continue
+						}
+						for _, rc := range core.CallsTo(cf, netsetRemove) {
+							if !onTableSet(rc.Common().Args[0]) {
+								continue
+							}
+							applies := true
+							for _, f := range core.DomFacts(rc.Block()) {
+								if f.Op != token.ILLEGAL {
+									continue
+								}
+								ld, isLd := core.Unwrap(f.V).(*ssa.UnOp)
+								if !isLd || ld.Op != token.MUL {
+									continue
+								}
+								fv, isFv := ld.X.(*ssa.FreeVar)
+								if !isFv {
+									continue
+								}
+								for bi, v := range cf.FreeVars {
+									if v == fv && bi < len(mc.Bindings) {
+										if known := cellKnown[mc.Bindings[bi]]; known && cells[mc.Bindings[bi]] != f.Truth {
+											applies = false
+										}
+									}
+								}
+							}
+							if !applies {
+								continue
+							}
+							k := setKey(rc.Common().Args[0])
+							bal[k]--
+							if bal[k] < 0 {
+								found = &verdict{fmt.Sprintf("%s is decremented by a deferred clean-up although nothing was added to it on this path (%s)", k, p.Pos(rc.Pos())), append([]*ssa.BasicBlock(nil), path...)}
+								return
+							}
+						}
+					}
 				case *ssa.Return:
 					nPaths++
 					if len(pending) > 0 {
@@ -95,10 +173,16 @@ func c07IPBalance(c *Ctx, m *tableModel) {
 					}
 					res := core.ResolveSpill(x.Results[0])
 					cst, isC := res.(*ssa.Const)
-					if !isC || cst.Value == nil {
+					answer := ""
+					if isC && cst.Value != nil {
+						answer = cst.Value.String()
+					} else if ld, isLd := x.Results[0].(*ssa.UnOp); isLd && ld.Op == token.MUL && cellKnown[ld.X] {
+						answer = fmt.Sprint(cells[ld.X])
+					}
+					if answer == "" {
 						return // a computed answer: not classified
 					}
-					if cst.Value.String() == "false" {
+					if answer == "false" {
 						for k, v := range bal {
 							if v != 0 {
 								found = &verdict{fmt.Sprintf("answers 'no' with %s still %+d", k, v), append([]*ssa.BasicBlock(nil), path...)}
